@@ -38,6 +38,15 @@ _spec = importlib.util.spec_from_file_location(f"e4mod_{os.getpid()}", _path)
 MOD = importlib.util.module_from_spec(_spec)
 VERDICT: list = []
 PROGS: list = []
+
+
+class _Unexecutable:
+    """an accepted program neither side can execute here (qubits): its text is still subject to the dropped-clause rule"""
+
+    def __init__(self, src):
+        self.src, self.name, self.code = src, src.split("(")[0].split()[-1], None
+
+
 try:
     _spec.loader.exec_module(MOD)
     _defs = MOD.PROGRAMS
@@ -50,6 +59,10 @@ for _src, _d in zip(SRCS, _defs):
         VERDICT.append(("rejected", _decorate_error))
         PROGS.append(None)
         continue
+    _exp = KIND == "c32" and _src.startswith("def s_exp_")       # checked with the experimental features on; only the dropped-clause rule applies
+    import guppylang_internals.experimental as _X
+    _old = _X.EXPERIMENTAL_FEATURES_ENABLED
+    _X.EXPERIMENTAL_FEATURES_ENABLED = bool(_exp) or _old
     try:
         _d.check()
         VERDICT.append(("accepted", ""))
@@ -57,7 +70,11 @@ for _src, _d in zip(SRCS, _defs):
         VERDICT.append(("rejected", type(_e.error).__name__))
     except Exception as _e:  # noqa: BLE001
         VERDICT.append(("crashed", f"{type(_e).__name__}: {_e}"))
-    if VERDICT[-1][0] == "accepted":
+    finally:
+        _X.EXPERIMENTAL_FEATURES_ENABLED = _old
+    if VERDICT[-1][0] == "accepted" and _exp:
+        PROGS.append(_Unexecutable(_src))
+    elif VERDICT[-1][0] == "accepted":
         try:
             PROGS.append(e4.Prog(_src))
         except Exception as _e:  # noqa: BLE001
@@ -89,6 +106,8 @@ def h_equiv(which: int, x: int, y: int, r0: int, r1: int, r2: int, r3: int, r4: 
             with NoTracing():
                 LAST_DETAIL = f"ACCEPTED by the real checker although it contains a {dropped}, which checked programs cannot represent:\n{prog.src}"
             return False
+    if prog.code is None:
+        return True      # (no executable CFG reading: comprehensions, qubit programs) nothing to compare at this level
     ok, detail = e4.equivalent(prog, (x, y), [r0, r1, r2, r3, r4, r5, r6, r7], fuel=FUEL, extra=EXTRA)
     if not ok:
         with NoTracing():
